@@ -763,9 +763,13 @@ class Interp:
         # module-level constant of the current module
         for mod in ([module_hint] if module_hint else []) + [self.module]:
             try:
-                return PyConst(self.src.const(mod, name), name=name)
+                cv = self.src.const(mod, name)
             except Exception:
-                pass
+                continue
+            # a module-level scalar constant (a hoisted literal) is the literal itself
+            if isinstance(cv, (bool, int, str)) or cv is None:
+                return self.const(cv)
+            return PyConst(cv, name=name)
         for mod in [self.module, "htmltools._core", "htmltools._util", "htmltools._jsx"]:
             q = f"{mod}.{name}"
             if self.src.has(q):
